@@ -39,9 +39,9 @@ CHECKS['C03'] = dict(
     title='tree traversal ascending exactly-once', level='exploration',
     jobs=tree_jobs('C03', ['--universe', '9', '--cases', '400'], ['--universe', '11', '--cases', '3000']),
     rule='evaluation = one operation of a history of put/remove/complete walks/abandoned walks/nearest searches; every complete '
-         'walk from a zeroed cursor is compared element by element (key, key size, value, value size) with the model order and must end once. '
+         'walk from a zeroed cursor is compared element by element (key, key size, value, value size) with the model order and must end once. A directed epoch sweep places exactly k traversal starts of one kind (nearest searches, abandoned continuations, abandoned walks, completed continuations, mixed) between audited walks for k around one and two wraps of the 8-bit counter. '
          'distinct = distinct (configuration, tree shape, epoch value) triples at which an audited walk completed.',
-    require=['complete_walks_audited', 'abandoned_walks', 'epoch_wraps', 'walks_started_after_fresh_insert', 'walks_started_after_root_change'],
+    require=['complete_walks_audited', 'abandoned_walks', 'epoch_wraps', 'walks_started_after_fresh_insert', 'walks_started_after_root_change', 'epoch_sweep_histories'],
     assumptions=TREE_ASSUME + ['CPU budget 2 s per getnext call decides non-termination'])
 
 CHECKS['C04'] = dict(
@@ -76,13 +76,13 @@ HASHARR_ASSUME = ['bounded-map model with slots(v) = 1 if |v|<=32 else 1+ceil((|
 
 def hasharr_jobs(prop):
     def jobs(tier, seed):
-        q = ['--maxcap', '4', '--cases', '280', '--statecap', '60000']
-        t = ['--maxcap', '5', '--cases', '3500', '--statecap', '1500000']
+        q = ['--maxcap', '7', '--cases', '280', '--statecap', '200000']
+        t = ['--maxcap', '12', '--cases', '3500', '--statecap', '3000000']
         a = t if tier == 'thorough' else q
         js = [Job('h_hasharr', 'plain', extra_srcs=REFS_HASH, args=a)]
         if prop == 'C07':
-            qa = ['--maxcap', '3', '--cases', '140', '--statecap', '20000']
-            ta = ['--maxcap', '4', '--cases', '1500', '--statecap', '300000']
+            qa = ['--maxcap', '5', '--cases', '140', '--statecap', '100000']
+            ta = ['--maxcap', '9', '--cases', '1500', '--statecap', '1000000']
             js.append(Job('h_hasharr', 'asan', extra_srcs=REFS_HASH, args=(ta if tier == 'thorough' else qa)))
         return js
     return jobs
@@ -93,7 +93,7 @@ CHECKS['C06'] = dict(
     jobs=hasharr_jobs('C06'),
     rule='evaluation = one operation (put/put_by_obj/putstr, remove, remove_by_idx, clear, walk) judged against the bounded-map model: result, errno, '
          'the exact fit predicate (free>=1 and slots(new)<=free+slots(old)), (num,maxslots,usedslots), get of every universe key and an audited walk, after every operation. '
-         'Phase A: breadth-first over every image reachable for capacities 2..N with 5 colliding keys (two per home, long keys sharing 16 bytes) x 3 value lengths (1/2/3 slots), '
+         'Phase A: breadth-first over every image reachable for capacities 2..N (N = 7 quick, 12 thorough) with 5 colliding keys (two per home, long keys sharing 16 bytes) x 3 value lengths (1/2/3 slots), '
          'ops put/remove/remove_by_idx(every index), images de-duplicated by a normalised copy; phase B random histories, capacities 2..257, keys up to 65535 bytes, fill/churn-at-full/drain phases. '
          'distinct = distinct normalised images.',
     require=['walks_audited', 'put_new_refused', 'put_replace_refused', 'put_replace_ok', 'branch_empty_home', 'branch_same_home_chain',
@@ -155,7 +155,7 @@ def c11_jobs(tier, seed):
     return [
         Job('h_tree', 'asan', args=['--universe', '11' if t else '8', '--cases', '2000' if t else '160']),
         Job('h_hashtbl', 'asan', extra_srcs=REFS_HASH, args=['--cases', '2500' if t else '192']),
-        Job('h_hasharr', 'asan', extra_srcs=REFS_HASH, args=['--maxcap', '4' if t else '3', '--cases', '1750' if t else '112', '--statecap', '300000' if t else '20000']),
+        Job('h_hasharr', 'asan', extra_srcs=REFS_HASH, args=['--maxcap', '9' if t else '5', '--cases', '1750' if t else '112', '--statecap', '1000000' if t else '100000']),
         Job('h_listtbl', 'asan', extra_srcs=REFS_HASH, args=['--cases', '6400' if t else '320']),
         Job('h_list', 'asan', args=['--cases', '2500' if t else '192']),
         Job('h_vector', 'asan', args=['--cases', '2000' if t else '128']),
